@@ -55,9 +55,29 @@ def gen_includes(rng, model, src_site, dst_site):
     if k == 0:
         return [], [], 'none'
     routes = model.simple_site_paths(src_site, dst_site)
-    kind = rng.choice(['on-route', 'on-route', 'on-route', 'wrong-order', 'off-route', 'random'])
+    kind = rng.choice(['on-route', 'on-route', 'on-route', 'wrong-order', 'off-route', 'random', 'loop-chain'])
     if not routes:
         return [], [], 'none'
+    if kind == 'loop-chain':
+        # one line element per link of a walk src..dst that passes one ROADM twice: the links chain end to end
+        # (which is what an "explicit route" looks like) but no loop-free path can cross them all
+        r = list(rng.choice(routes))
+        i = rng.randrange(len(r))
+        back = [x for x in model.neighbours(r[i]) if (x, r[i]) in model.links and (r[i], x) in model.links]
+        if back:
+            x = rng.choice(back)
+            walk = r[:i + 1] + [x, r[i]] + r[i + 1:]
+            nodes = []
+            for a, b in zip(walk[:-1], walk[1:]):
+                els = [u for u in rng.choice(model.links[(a, b)])[0] if u in model.element_link]
+                if els:
+                    nodes.append(rng.choice(els))
+            if len(set(nodes)) == len(nodes) and nodes:
+                hops = [rng.choice(['STRICT', 'LOOSE']) for _ in nodes]
+                if rng.random() < 0.4:
+                    hops = [rng.choice(['STRICT', 'LOOSE'])] * len(nodes)
+                return nodes, hops, kind
+        kind = 'on-route'
     route = rng.choice(routes)
     uid_path, _ = model.expand(route)[0]
     pool_r = [u for u in uid_path[1:-1] if isinstance(model.nodes[u], Roadm)]
@@ -97,13 +117,14 @@ def feasible_paths(model, src, dst, includes):
 
 
 def explicit_shortcut(model, includes, uids):
-    """Witness predicate of the listed finding: every include is a line element, their OMS taken in list order
+    """Witness predicate of the listed finding: the OMS of the listed line elements taken in list order
     (duplicates removed) are exactly the links of the returned route, but inside an OMS the listed order is not the
     crossing order."""
-    if not includes or any(u not in model.element_link for u in includes) or any(u not in uids for u in includes):
+    line = [u for u in includes if u in model.element_link]      # ROADM entries carry no OMS: the shortcut skips them
+    if not line or any(u not in uids for u in includes):
         return False
     seq = []
-    for u in includes:
+    for u in line:
         a, b, _ = model.element_link[u]
         if (a, b) not in seq:
             seq.append((a, b))
